@@ -1,11 +1,11 @@
 #!/usr/bin/env bash
-# usage: confirm_seeded.sh <ID> [<worktree>]   (worktree defaults to /tmp/wt/<ID>)
+# usage: confirm_seeded.sh <ID> [<worktree> [<store-name>]]   (worktree defaults to /tmp/wt/<ID>, store name to <ID>)
 # Independently re-confirms a sub-agent's seeded change in its scratch worktree:
 #   with the change: the repository's 371 tests pass, the demo test fails;
 #   without it:      the demo test passes.
 # Then stores patch/demo/meta under /verif/seeded/<ID>/ (the worktree is removed by the caller).
 set -u
-ID="$1"; WT="${2:-/tmp/wt/$ID}"; low=$(echo "$ID" | tr 'A-Z' 'a-z')
+ID="$1"; WT="${2:-/tmp/wt/$ID}"; STORE="${3:-$ID}"; low=$(echo "$ID" | tr 'A-Z' 'a-z')
 cd "$WT" || exit 2
 export CARGO_TARGET_DIR="$WT/target"
 DEMO=$(ls tests/seeded_* 2>/dev/null | head -1); DEMONAME=$(basename "$DEMO" .rs)
@@ -26,23 +26,23 @@ demo_failed = any(sys.argv[2] in t for t in failed)
 print(json.dumps({"baseline_passed": len(passed & base), "baseline_total": len(base), "baseline_missing": sorted(base-passed)[:5], "demo_fails_with_change": demo_failed}))
 PY
 cat /tmp/confirm_$ID.suite
-git stash push -q -- src
+git apply -R /tmp/confirm_$ID.diff || { echo "cannot revert the change"; exit 2; }   # (git stash is shared between worktrees: not used)
 cargo test --offline --test "$DEMONAME" > /tmp/confirm_$ID.demo 2>&1; rc=$?
-git stash pop -q
+git apply /tmp/confirm_$ID.diff
 echo "demo without change: exit $rc"
-mkdir -p /verif/seeded/$ID
-cp /tmp/confirm_$ID.diff /verif/seeded/$ID/patch.diff
-cp "$DEMO" /verif/seeded/$ID/demo.rs
-python3 - "$ID" "$rc" <<'PY'
+mkdir -p /verif/seeded/$STORE
+cp /tmp/confirm_$ID.diff /verif/seeded/$STORE/patch.diff
+cp "$DEMO" /verif/seeded/$STORE/demo.rs
+python3 - "$ID" "$rc" "$WT" "$STORE" <<'PY'
 import json, sys, os
-ID, rc = sys.argv[1], int(sys.argv[2])
+ID, rc, WT, STORE = sys.argv[1], int(sys.argv[2]), sys.argv[3], sys.argv[4]
 meta = {}
-try: meta = json.load(open(f"/tmp/wt/{ID}/seeded/meta.json"))
+try: meta = json.load(open(f"{WT}/seeded/meta.json"))
 except Exception as e: meta = {"note": "agent meta.json missing or invalid"}
 suite = json.load(open(f"/tmp/confirm_{ID}.suite"))
 meta["property"] = ID
 meta["confirmed_by_me"] = {"suite_with_change": suite, "demo_without_change_passes": rc == 0,
    "how": "tools/confirm_seeded.sh: cargo nextest run --workspace in the scratch worktree with the change applied (passing set compared with BASELINE.json), then the demo test alone with the source change stashed"}
-json.dump(meta, open(f"/verif/seeded/{ID}/meta.json", "w"), indent=1)
-print("stored /verif/seeded/%s" % ID)
+json.dump(meta, open(f"/verif/seeded/{STORE}/meta.json", "w"), indent=1)
+print("stored /verif/seeded/%s" % STORE)
 PY
